@@ -486,15 +486,16 @@ theorem itemOK_of_legal (beh : Nat → Nat → List PVal → BehOut)
   rw [cg_g] at hsmall hl hvalid ⊢
   exact pathGood_of_legal e b funcs target hsmall cur pops hl hvalid
 
-/-- the three outcomes, for `Call` on the graph `callGraph` builds: `K` marks whether the requirement edges
+/-- (oracle items good, or R6 hops copy — which they do in `C01.stdCtx` since the repair of F22)
+the three outcomes, for `Call` on the graph `callGraph` builds: `K` marks whether the requirement edges
 are known to have survived pruning; the oracle items are good -/
-theorem core_items (H : Hyps e b funcs target) (beh : Nat → Nat → List PVal → BehOut) (K : Prop)
+theorem core_items' (H : Hyps e b funcs target) (beh : Nat → Nat → List PVal → BehOut) (K : Prop)
     (hreqs : K → (callGraph {} e b funcs target false none).unsat = [] →
       ∀ k f, (C01.stdCtx e b funcs target beh).funcOf k = some f →
         (∃ u, (C01.stdCtx e b funcs target beh).g.hasEdge (.func k) u = true) →
         ∀ v ∈ f.input.values, v.lab.vertex ∈ (C01.stdCtx e b funcs target beh).g.outs (.func k))
     (fuel : Nat) (memo : List (Nat × Memo)) (orc : List OrcItem)
-    (hitems : ∀ it ∈ orc, ItemOK (C01.stdCtx e b funcs target beh).g it) :
+    (hitems : ∀ it ∈ orc, (C01.stdCtx e b funcs target beh).hopCopies = true ∨ ItemOK (C01.stdCtx e b funcs target beh).g it) :
     (callWith (C01.stdCtx e b funcs target beh) (callGraph {} e b funcs target false none) target fuel
       (initSt (callGraph {} e b funcs target false none).cg memo orc)).1 ≠ .panic .finalValue ∧
     (callWith (C01.stdCtx e b funcs target beh) (callGraph {} e b funcs target false none) target fuel
@@ -512,6 +513,23 @@ theorem core_items (H : Hyps e b funcs target) (beh : Nat → Nat → List PVal 
     unfold callWith
     rw [if_pos hne]
     exact ⟨by simp, by simp, fun _ => by simp⟩
+
+/-- the three outcomes, for `Call` on the graph `callGraph` builds: `K` marks whether the requirement edges
+are known to have survived pruning; the oracle items are good -/
+theorem core_items (H : Hyps e b funcs target) (beh : Nat → Nat → List PVal → BehOut) (K : Prop)
+    (hreqs : K → (callGraph {} e b funcs target false none).unsat = [] →
+      ∀ k f, (C01.stdCtx e b funcs target beh).funcOf k = some f →
+        (∃ u, (C01.stdCtx e b funcs target beh).g.hasEdge (.func k) u = true) →
+        ∀ v ∈ f.input.values, v.lab.vertex ∈ (C01.stdCtx e b funcs target beh).g.outs (.func k))
+    (fuel : Nat) (memo : List (Nat × Memo)) (orc : List OrcItem)
+    (hitems : ∀ it ∈ orc, ItemOK (C01.stdCtx e b funcs target beh).g it) :
+    (callWith (C01.stdCtx e b funcs target beh) (callGraph {} e b funcs target false none) target fuel
+      (initSt (callGraph {} e b funcs target false none).cg memo orc)).1 ≠ .panic .finalValue ∧
+    (callWith (C01.stdCtx e b funcs target beh) (callGraph {} e b funcs target false none) target fuel
+      (initSt (callGraph {} e b funcs target false none).cg memo orc)).1 ≠ .panic .setNotAssignable ∧
+    (K → (callWith (C01.stdCtx e b funcs target beh) (callGraph {} e b funcs target false none) target fuel
+      (initSt (callGraph {} e b funcs target false none).cg memo orc)).1 ≠ .missingArg) :=
+  core_items' H beh K hreqs fuel memo orc (fun it hit => Or.inr (hitems it hit))
 
 /-- … for a legal oracle -/
 theorem core (H : Hyps e b funcs target) (beh : Nat → Nat → List PVal → BehOut) (K : Prop)
